@@ -200,7 +200,7 @@ def run(ctx):
         return
     quick = ctx.tier == "quick"
     farm = Farm(ctx, binp, gsort)
-    args = ["-mode", "all", "-n", 36 if quick else 400, "-limit", 2000000 if quick else 140000000,
+    args = ["-mode", "all", "-n", 32 if quick else 400, "-limit", 1200000 if quick else 140000000,
             "-runs", 6 if quick else 16]
     terms, jsons, err = farm.run("all", args, timeout=3000)
     if err:
@@ -213,26 +213,30 @@ def run(ctx):
         ctx.report({"unchecked": "in-kernel evaluation of the correspondence", "detail": err},
                    {"kind": "coq_eval"}, failing_input=False)
         return
-    informational = []
-    shapes_seen = set()
+    informational, groups = [], {}
     for i, code in bad:
         j = jsons[i]
         if j["kind"].startswith("out-of-domain"):
             informational.append({"def": j["source"], "sorter": j["sorter"], "code": code})
             continue
         sh = shape(j)
-        key = json.dumps([sh, code], sort_keys=True)
-        if key in shapes_seen and ctx.nreplay >= 1:
-            ctx.violations.append("(same shape as an earlier replay)")
-            continue
-        shapes_seen.add(key)
-        if code == 1 and ctx.nreplay < 3:
+        groups.setdefault((code, sh["last_key_bool"], j["gen_ok"]), []).append(j)
+    # one replay per group of like failures: the member with the fewest keys, minimised by
+    # re-running reduced definitions (the sorter alone over suffixes of its key chain)
+    for (code, _, _), members in sorted(groups.items(), key=lambda kv: kv[0][0]):
+        members.sort(key=lambda j: (len(chain(j["def"], j["sorter"])), len(j["def"]["fields"])))
+        j = members[0]
+        if code == 1 and j["gen_ok"] and ctx.nreplay < 3:
             j = minimise(farm, j)
         rep = {"case": view(j), "failing_observation": locate(j),
                "verdict": {1: "observation violates the lexicographic strict-weak-order specification",
                            2: "observation satisfies the specification but differs from the Coq model"}[code],
+               "like_failures_in_this_run": [{"type": m["def"]["type"], "sorter": m["sorter"], "source": m["source"]}
+                                             for m in members[:8]],
+               "like_failures_count": len(members),
                "replay_cmd": "./check C08 --replay <this file>"}
-        ctx.report(rep, shape(j), failing_input=(code == 1))
+        if ctx.report(rep, shape(j), failing_input=(code == 1)) == "violation":
+            ctx.violations += ["(like the replay above)"] * (len(members) - 1)
     gen = [j for j in jsons if j["gen_ok"]]
     nt = [j for j in gen if len(chain(j["def"], j["sorter"])) >= 2 or shape(j)["last_key_bool"]]
     ctx.cov.update({
